@@ -101,6 +101,15 @@ def doc_scenarios(tier, seed):
             scs.append(S(rnd.choice(["Wheat", "Cotton", "Potato"]), seed=1, soil_spec=spec, iwc=iw))
         scs.append(S("Sorghum", seed=1, soil_spec=spec, iwc={"wc_type": "Num", "method": "Depth", "depth_layer": [0.1, 0.45, 1.0, 1.7], "value": [0.12, 0.3, 0.22, 0.35]}))
         scs.append(S("Barley", seed=1, soil_spec=spec, iwc={"wc_type": "Num", "value": [0.2] * nl, "depth_layer": list(range(1, nl + 1))}))
+    # percentages of TAW under a shallow water table (the field capacity the request refers to is the layer's, not the one adjusted for the table),
+    # and layer properties with more than three decimals
+    # (the table lies BELOW the profile - 1.6 m for wheat, 1.2 m for tomato -: inside it the compartments under the table start saturated, as documented)
+    for soil in ("SandyLoam", "Loam", "Clay"):
+        scs.append(S("Wheat", soil, seed=1, gw={"water_table": "Y", "dates": ["2001/04/20"], "values": [2.0]}, iwc={"wc_type": "Pct", "value": [50]}))
+        scs.append(S("Tomato", soil, seed=1, gw={"water_table": "Y", "dates": ["2001/04/20"], "values": [1.5]}, iwc={"wc_type": "Pct", "method": "Depth", "depth_layer": [0.2, 0.9], "value": [80, 30]}))
+    fine = {"type": "custom", "kw": {"dz": [0.1] * 12}, "layers": [[0.5, 0.1234, 0.2617, 0.4321, 300.0, 100], [0.7, 0.2046, 0.3551, 0.4879, 80.0, 100]]}
+    for iw in ({"wc_type": "Pct", "value": [35, 65], "depth_layer": [1, 2]}, {"wc_type": "Pct", "method": "Depth", "depth_layer": [0.25, 1.0], "value": [70, 45]}):
+        scs.append(S("Tomato", seed=1, soil_spec=fine, iwc=iw))
     # layers declared only for the upper part of the compartment grid
     for crop in ("Wheat", "Maize", "Tef"):
         scs.append(S(crop, seed=1, soil_spec=L.LAYERED_SOILS["shallow_layers"], iwc=rnd.choice(L.iwc_variants(2))))
